@@ -441,6 +441,13 @@ def replay(cx):
             dense = d.transform(X)
             res["transform"], res["index"] = np.asarray(dense.values).tolist(), dense.index
             try:
+                ts = d.transform_scores(X)
+                res["scores_index"] = ts.index
+                vals = ts["score"] if isinstance(ts, pd.DataFrame) and "score" in ts else ts
+                res["scores"] = np.asarray(vals, dtype=float).round(9).tolist()
+            except NotImplementedError:
+                res["scores_index"], res["scores"] = None, None
+            try:
                 d2 = build(det, p, values=env, scale=env.get("scale", 0.5)).fit(X)
                 d2.update(X)
                 res["update"] = _sparse(d2.predict(X))
@@ -458,6 +465,10 @@ def replay(cx):
                 bad.append(f"transform on {cname} has index {got['index']}")
             if got["update"] != ref["update"]:
                 bad.append(f"update+predict on {cname}: {got['update']} vs on DataFrame {ref['update']}")
+            if got["scores"] != ref["scores"]:
+                bad.append(f"transform_scores on {cname}: {got['scores']} vs on DataFrame {ref['scores']}")
+            if det in ("PELT", "MovingWindow", "CAPA", "MVCAPA") and got["scores_index"] is not None and not got["scores_index"].equals(expected_index(cs[cname], n)):
+                bad.append(f"transform_scores on {cname} has index {list(got['scores_index'])[:3]}..., X has {list(expected_index(cs[cname], n))[:3]}...")
         except Exception as ex:
             bad.append(f"{det} on {cname} raised {type(ex).__name__}: {ex}")
     kind = "update" if bad and all("update" in b for b in bad) else "run"
